@@ -305,4 +305,133 @@ def c05(tier, seed, replay):
     return finish_simple('C05', tier, seed, jobs, viols, t0, 'model_checking')
 
 
-CHECKS = {'C11': c11, 'C20': c20, 'C05': c05}
+# --------------------------------------------------------------------------- C12 (composite: list caches + structural PutResult)
+def putresult_table(work, binary):
+    cfgp = work.path('pr.cfg')
+    vlib.write_cfg(cfgp, 'Spec', {})
+    drv, rc, wall = vlib.run_tlc('MCPutResultEq', cfgp, work.dir, 'pr-mc', workers=1, xmx='1g')
+    if rc != 0:
+        raise ToolError('MCPutResultEq failed')
+    out = work.path('pr.0.ndjson')
+    import subprocess
+    p = subprocess.run([binary, 'putresult', '--in', drv, '--out', out], stdout=subprocess.PIPE, stderr=subprocess.PIPE, text=True)
+    if p.returncode != 0:
+        raise ToolError('putresult harness failed: ' + p.stderr[-1000:])
+    stats = [json.loads(l) for l in p.stderr.splitlines() if l.startswith('{')][-1]
+    job = dict(tag='putresult-15x15', inst=dict(name='putresult-15x15', cfg={}, keys=0), variant='std',
+               tlc=dict(distinct=stats['events'], generated=stats['events'], module='MCPutResultEq', wall_s=round(wall, 2)),
+               exec=dict(stats=stats, rc=0), shards=[out])
+    viols = []
+    rej = vlib.tlc_validate('PutResultTrace', {}, 'C12', out, work.dir, 'pr-tv')
+    if rej:
+        viols.append(dict(cmd='putresult', instance='putresult-15x15', record=rej[1], op={'op': 'eq', 'a': rej[1].get('a'), 'b': rej[1].get('b')},
+                          what='PutResult equality/clone is not structural for ' + json.dumps(rej[1].get('a')) + ' vs ' + json.dumps(rej[1].get('b'))))
+    with open(out) as f:
+        job['samples'] = dict(instance=job['tag'], first_records=[json.loads(next(f)) for _ in range(2)])
+    return job, viols
+
+
+def c12(tier, seed, replay):
+    import checks
+    if replay:
+        d = json.load(open(replay))
+        if d.get('kind'):
+            return checks.replay_list('C12', replay)
+        return 2
+    t0 = time.time()
+    parts = []
+    checks.run_list_prop('C12', tier, seed, collect=parts)
+    work = vlib.Work('C12-pr')
+    try:
+        j, vs = putresult_table(work, vlib.build_harness('std'))
+        parts.append(([j], vs))
+    finally:
+        work.cleanup()
+    jobs = [j for js, _ in parts for j in js]
+    viols = [v for _, vs in parts for v in vs]
+    return finish_simple('C12', tier, seed, jobs, viols, t0, 'model_checking')
+
+
+# --------------------------------------------------------------------------- C14 (iterators)
+def c14(tier, seed, replay):
+    from instances import INSTANCES, KINDS
+    import instances as I
+    prop = 'C14'
+    t0 = time.time()
+    work = vlib.Work(prop)
+    try:
+        binary = vlib.build_harness('std')
+        # (A) the cursor machine itself: every word over {next,next_back} of length <= len+2 on every list of length <= MaxLen
+        cfgp = work.path('mciter.cfg')
+        vlib.write_cfg(cfgp, 'Spec', {'MaxLen': 3 if tier == 'quick' else 4})
+        out, rc, wall = vlib.run_tlc('MCIter', cfgp, work.dir, 'mciter', workers=1, xmx='4g')
+        s = vlib.tlc_summary(out)
+        if rc != 0 or s['errors']:
+            raise ToolError('MCIter failed: %s' % s['errors'])
+        plan = {
+            'quick': [('raw', I.raw(3, [0, 2], 4, [1]), dict(Kind='raw', P1=3, P2=0, P3=0), 120, True),
+                      ('2q', I.twoq(3, 1, 2, 4, [1]), dict(Kind='2q', P1=3, P2=1, P3=2), 120, False),
+                      ('arc', I.arc(2, 4, [1]), dict(Kind='arc', P1=2, P2=0, P3=0), 120, False)],
+            'thorough': [('raw', I.raw(4, [0, 2], 5, [1]), dict(Kind='raw', P1=4, P2=0, P3=0), 1500, True),
+                         ('raw', I.raw(1, [0, 2], 3, [1, 2]), dict(Kind='raw', P1=1, P2=0, P3=0), None, True),
+                         ('2q', I.twoq(3, 1, 2, 5, [1]), dict(Kind='2q', P1=3, P2=1, P3=2), 1500, False),
+                         ('2q', I.twoq(2, 0, 1, 4, [1]), dict(Kind='2q', P1=2, P2=0, P3=1), None, True),
+                         ('arc', I.arc(2, 5, [1]), dict(Kind='arc', P1=2, P2=0, P3=0), 1500, False),
+                         ('arc', I.arc(3, 5, [1]), dict(Kind='arc', P1=3, P2=0, P3=0), 800, False)],
+        }[tier]
+        jobs = []
+        for kind, inst, tc, ms, allw in plan:
+            jobs.append(dict(kind=kind, inst=dict(inst, tc=tc), max_states=ms, all_words=allw, tag='iter-' + inst['name']))
+
+        def gen(job):
+            kd = KINDS[job['kind']]
+            drv, st = vlib.tlc_model_check(kd['mc'], job['inst']['mc'], work.dir, job['tag'] + '-mc', emit=True)
+            job['tlc'], job['driver'] = st, drv
+            prefix = work.path(job['tag'] + '.trace')
+            c = [binary, 'iters', '--kind', job['kind'], '--cfg', json.dumps(job['inst']['cfg']), '--in', drv, '--out', prefix, '--shard', '6000']
+            if job['max_states']:
+                c += ['--max-states', str(job['max_states'])]
+            if job['all_words']:
+                c += ['--all-words']
+            import subprocess
+            p = subprocess.run(c, stdout=subprocess.PIPE, stderr=subprocess.PIPE, text=True)
+            if p.returncode != 0:
+                raise ToolError('iters harness failed: ' + p.stderr[-1500:])
+            job['exec'] = dict(rc=0, stats=[json.loads(l) for l in p.stderr.splitlines() if l.startswith('{')][-1])
+            job['shards'] = vlib.list_shards(prefix)
+            return job
+        vlib.pool_map(gen, jobs, 3)
+
+        def val(t):
+            job, shard = t
+            out = []
+            cur = shard
+            for attempt in range(3):
+                rej = vlib.tlc_validate('IterTrace', job['inst']['tc'], prop, cur, work.dir, job['tag'] + '-tv')
+                if rej is None:
+                    break
+                idx, rec = rej
+                out.append(dict(cmd='iters', kind=job['kind'], instance=job['inst']['name'], cfg=job['inst']['cfg'], record=rec, path=rec.get('path'),
+                                op=dict(op='iter', list=rec.get('list'), fam=rec.get('fam'), word=''.join(rec.get('word', [])))))
+                nxt = cur + '.c%d' % attempt
+                k = 0
+                with open(cur) as f, open(nxt, 'w') as g:
+                    for i, line in enumerate(f, 1):
+                        if i > idx:
+                            g.write(line)
+                            k += 1
+                if k == 0:
+                    break
+                cur = nxt
+            return out
+        tasks = [(j, s) for j in jobs for s in j['shards']]
+        res = vlib.pool_map(val, tasks, max(2, vlib.NCPU - 2))
+        viols = [d for r in res for d in r]
+        return finish_simple(prop, tier, seed, jobs, viols, t0, 'model_checking',
+                             extra_cov=dict(cursor_machine=dict(module='MCIter', max_len=3 if tier == 'quick' else 4, wall_s=round(wall, 1),
+                                                                note='every list of length <= max_len x both kinds x every word over {next,next_back} of length <= len+2')))
+    finally:
+        work.cleanup()
+
+
+CHECKS = {'C11': c11, 'C20': c20, 'C05': c05, 'C12': c12, 'C14': c14}
